@@ -885,6 +885,10 @@ def run(ctx):
                 ctx.sample({"torrent_hex": data.hex()[:400], "json": runs["json"][1].decode("utf-8", "replace")[:400]}, cap=3)
     finally:
         shutil.rmtree(tmp, ignore_errors=True)
+    # end to end with create (X5, c07_created_bytes_show_back): real `create`, then `show` of the written file, against the
+    # extracted composition build -> encode -> loader -> report and against the command line itself
+    from props import e2e_create
+    e2e_create.run_show(ctx, ctx.n(150, 2500))
     return finish(ctx)
 
 
@@ -900,15 +904,24 @@ def finish(ctx):
         rule="generated torrents (single/multi file, each optional key present with probability 1/2, unicode/control/punctuation "
              "strings, IPv4/IPv6/domain nodes, empty and multi-tier announce lists, lengths up to 2^63-1 with sums around 2^63 and "
              "2^64, unknown keys) plus a mutated stream; each run through --json, piped (tab), --terminal and stdin; a case is "
-             "distinct/non-trivial by (file count, mode, presence pattern of the optional fields, private, content-size magnitude)",
+             "distinct/non-trivial by (file count, mode, presence pattern of the optional fields, private, content-size magnitude). "
+             "End to end with create (counts x5_*): C05's generator of `create` command lines (option subsets x file / directory / "
+             "stdin, every recorded url-crate normalisation) - real `create --output`, then `show` --json / piped / --terminal of the "
+             "written file, compared with the extracted composition build -> encode -> loader -> report and with the command line "
+             "itself; the MD5 texts the loader carries (counts x5_md5_*): `md5sum` entries of the written file and the extracted "
+             "build -> encode -> from_input against hashlib's MD5 of the contents under --md5 and none otherwise; "
+             "distinct by (options given, tree kind, number of files)",
         trusted_base=["Coq 8.16.1 kernel (coqc)", "tools/rs2v_summary.py (GenSummary)",
-                      "extraction with ExtrOcamlBasic + runner/driver.d/summary.ml", "real imdl binary (debug profile)",
+                      "extraction with ExtrOcamlBasic + runner/driver.d/summary.ml, runner/driver.d/endtoendshow.ml", "real imdl binary (debug profile)",
                       "Python oracle in tools/props/c07.py (lib.bdecode_strict, hashlib, datetime, posixpath)"],
     )
 
 
 def replay(ctx, path):
     case = json.load(open(path))["case"]
+    if case.get("e2e"):
+        from props import e2e_create
+        return e2e_create.replay(ctx, case)
     hx = case.get("torrent_hex")
     if not hx:
         print(json.dumps(case, indent=1)[:3000]); return 0
